@@ -33,7 +33,7 @@ Proof.
   intros sep f db [Hk [Ha Hw]] Hdb.
   apply (c03_shape_suffices (nets_of f) (cdb_get_location sep db)).
   intros m a bits ones plen Halt Hc. rewrite c03_lpm_result_eq.
-  apply cdb_is_lpm; auto. apply c03_client_plen_eq. exact Hc.
+  apply cdb_is_lpm; auto.
 Qed.
 
 Theorem scope_truthful_cdb : forall sep f db fm8 fmM,
@@ -101,7 +101,6 @@ Proof.
   intros m a bits ones plen Halt Hc. rewrite c03_lpm_result_eq.
   destruct (Hdb m) as [pts [Hp [Hhas Honly]]].
   apply (rdb_driver_is_lpm sort Hs (nets m) (Hw m) pts Hp db m Hhas Honly); auto.
-  apply c03_client_plen_eq. exact Hc.
 Qed.
 
 Theorem scope_truthful_rdb : forall sort nets db fm8 fmM,
